@@ -175,11 +175,11 @@ theorem spanAsn_len (l : List Hop) : (spanAsn l).2.length ≤ l.length := by
 
 /-- chunks of `n` (`slice::chunks`) -/
 def chunksOf (n : Nat) (l : List Nat) : List (List Nat) :=
-  if h : l = [] ∨ n = 0 then [] else l.take n :: chunksOf n (l.drop n)
+  if _h : l = [] ∨ n = 0 then [] else l.take n :: chunksOf n (l.drop n)
 termination_by l.length
 decreasing_by
-  have h1 : l ≠ [] := fun e => h (Or.inl e)
-  have h2 : n ≠ 0 := fun e => h (Or.inr e)
+  have h1 : l ≠ [] := fun e => _h (Or.inl e)
+  have h2 : n ≠ 0 := fun e => _h (Or.inr e)
   have : 0 < l.length := List.length_pos_iff.mpr h1
   simp only [List.length_drop]; omega
 
